@@ -43,7 +43,7 @@ func ruleReaderTotal(c *Check, a *Analysis, rule string) {
 		}
 		return false
 	}
-	deliveries := eventsOf(fn, "(*Call).streaming")
+	deliveries := eventsOf(fn, deliveryName(p))
 	isDelivery := func(x ssa.Instruction) bool { return isIn(x, deliveries) }
 	rooted := func(field string, k int64, eqWanted bool) condMatch {
 		return func(cond ssa.Value) (bool, bool) {
@@ -89,7 +89,17 @@ func ruleReaderTotal(c *Check, a *Analysis, rule string) {
 			if !lk.Block().Dominates(e.from) || p.reachesLockSectionOf(fn, e.from, lk) {
 				continue
 			}
-			_, tr, miss := p.reachFromBlock(fn, e.to, isReturnLike, ar.eff, nil)
+			// inside the arm its own predicate keeps holding (a repeated test of it goes the same
+			// way), and a stream message for a call without a stream has nowhere to go
+			cut, _ := p.guardEdges(fn, negate(ar.m))
+			if ar.name == "stream message" {
+				nilStream, _ := p.guardEdges(fn, matchFieldNilAny(p, "stream"))
+				for k := range nilStream {
+					cut[k] = true
+				}
+			}
+			delete(cut, edge{e.from, e.to})
+			_, tr, miss := p.reachFromBlock(fn, e.to, isReturnLike, ar.eff, cut)
 			c.Ob(rule, fname(fn)+"#"+ar.name+" arm completes", p.InstrPos(e.to.Instrs[0]), !miss, ifs(miss, "the "+ar.name+" arm can return without completing/delivering the call ("+p.lineTrail(tr)+"): the caller waits forever / the message is lost"))
 		}
 	}
@@ -501,20 +511,24 @@ func ruleWGDiscipline(c *Check, a *Analysis, rule string) {
 		}
 	}
 	if hr := p.Fn("(*Server).handleRequest"); hr != nil {
-		var wg ssa.Value
-		for _, prm := range hr.Params {
-			if strings.Contains(prm.Type().String(), "WaitGroup") {
-				wg = prm
-			}
-		}
 		ok := false
-		if wg != nil {
+		{
 			eachInstr(hr, func(in ssa.Instruction) {
 				d, isD := in.(*ssa.Defer)
 				if !isD || calleeNameCommon(d.Common()) != "(*sync.WaitGroup).Done" {
 					return
 				}
+				// the wait group it was given: a parameter, or a field of a parameter struct
+				wg := d.Call.Args[0]
 				g, _ := p.guardedBy(in, negate(matchValueNil(p, wg)))
+				if fr, _, isF := fieldOfLoad(p.canon(wg)); !g && isF {
+					g, _ = p.guardedBy(in, negate(matchFieldNilAny(p, fr.Field)))
+				}
+				if fv, isFV := wg.(*ssa.Field); !g && isFV {
+					if st2, okS := fv.X.Type().Underlying().(*types.Struct); okS {
+						g, _ = p.guardedBy(in, negate(matchFieldNilAny(p, st2.Field(fv.Field).Name())))
+					}
+				}
 				// and nothing that can block or return precedes it
 				first := true
 				eachInstr(hr, func(x ssa.Instruction) {
@@ -655,14 +669,32 @@ func ruleStreamEvent(c *Check, a *Analysis, rule string) {
 		}
 	}
 	// the client forwards the call's error to the stream reader
-	if st := p.Fn("(*Call).streaming"); st != nil {
-		ok := false
-		for _, s := range p.fieldStoresIn(st, "event", "Error") {
-			if isLoadOf(p.canon(s.Val), "Call", "Error") {
-				ok = true
+	{
+		ok, any := true, false
+		for _, fn := range p.Fns {
+			if fileOf(p, topParent(fn)) != "conn.go" {
+				continue
+			}
+			for _, tr := range callsIn(fn, "(*stream).trigger") {
+				if tr.Parent() != fn && !p.isPlainHelper(tr.Parent()) {
+					continue
+				}
+				any = true
+				fwd := false
+				for _, s := range p.fieldStoresIn(tr.Parent(), "event", "Error") {
+					_, base, _ := fieldOfAddr(s.Addr)
+					if isLoadOf(p.canon(s.Val), "Call", "Error") && p.canon(base) == p.canon(tr.Common().Args[1]) {
+						fwd = true
+					}
+				}
+				if !fwd {
+					ok = false
+				}
 			}
 		}
-		c.Ob(rule, "(*Call).streaming#forwards Call.Error", st.Pos(), ok, ifs(!ok, "the client's stream delivery drops the call's error: a failed stream message looks like an empty success"))
+		if any {
+			c.Ob(rule, "client delivery#forwards Call.Error", token.NoPos, ok, ifs(!ok, "the client's stream delivery drops the call's error: a failed stream message looks like an empty success"))
+		}
 	}
 	if n == 0 {
 		c.Undecided(rule, "no stream.trigger call found")
